@@ -70,8 +70,8 @@ type GhostVar struct {
 
 var ghostVars = []GhostVar{
 	{"alloc", SInt, "alloc"},
-	{"chanClosed", SInt, "chan"}, {"evOpen", SBool, "chan"}, {"evNext", SInt, "chan"}, {"evCur", SInt, "chan"}, {"evCount", SInt, "chan"},
-	{"msClosed", SInt, "chan"}, {"msSent", SInt, "chan"}, {"rxDone", SInt, "chan"},
+	{"chanClosed", SInt, "chanclose"}, {"evOpen", SBool, "chan"}, {"evNext", SInt, "chan"}, {"evCur", SInt, "chan"}, {"evCount", SInt, "chan"},
+	{"msClosed", SInt, "chanclose"}, {"msSent", SInt, "chan"}, {"rxDone", SInt, "chan"},
 	// event times: evClock counts the readings of the (monotone, A-TIME) clock, evLastTime is the reading carried by the last
 	// event sent. Global invariant evLastTime <= evClock: assumed at entry and after calls, re-established at every send, which
 	// must carry a reading taken by time.Now (below evClock) and not older than the previous event's
